@@ -294,6 +294,21 @@ impl<'p> Interp<'p> {
 				"to_string" | "to_owned" | "clone" | "into" | "as_str" | "as_ref" | "borrow" => Ok(inner.clone()),
 				"len" => Ok(V::Int(s.len() as i128, ITy::Usize)),
 				"is_empty" => Ok(V::Bool(s.is_empty())),
+				"chars" => {
+					let items: Vec<V> = s.chars().map(|c| V::Str(c.to_string().as_str().into())).collect();
+					Ok(self.mk_iter(items))
+				}
+				"starts_with" | "ends_with" | "contains" => {
+					let a = match self.deref_val(&args[0]) {
+						V::Str(a) => a,
+						_ => return unsup("str pattern argument"),
+					};
+					Ok(V::Bool(match name {
+						"starts_with" => s.starts_with(&*a),
+						"ends_with" => s.ends_with(&*a),
+						_ => s.contains(&*a),
+					}))
+				}
 				_ => unsup(format!("str method {}", name)),
 			},
 			V::Closure(_) | V::FnPath(..) => match name {
